@@ -24,7 +24,7 @@ SAFETY = ["X_NoTxBeforeEstablished", "X_NothingAfterClosingTag", "X_LateCallsRef
           "X_OwnReplyOnly", "X_AtMostOneReply", "X_OutcomeConsistent", "X_ServeRetBothClosed",
           "X_RequestOnlyWhenEstablished", "X_AddrStable", "X_UpdateAddrRefused", "X_FailedNeverServed",
           "X_NoEstablishedAfterFailure", "X_EstablishedHasAddress"]
-ACTION = ["X_BitsMonotone", "X_ReadyBeforeHandler", "X_PhaseOrder", "X_RefusalNotReady"]
+ACTION = ["X_BitsMonotone", "X_ReadyBeforeHandler", "X_PhaseOrder", "X_RefusalNotReady", "X_RemoteStable"]
 LIVE = ["X_PeerEndLeadsToClosed", "X_RequestsEnd"]
 
 # deviation -> the properties it must break (each checked alone: non-vacuity of every property)
@@ -42,6 +42,7 @@ DEVS = {
     "RunAfterFailure": ["X_NoEstablishedAfterFailure"],
     "EmptyAddress": ["X_EstablishedHasAddress"],
     "ReadyAfterRefusal": ["X_RefusalNotReady"],
+    "BindChangesRemote": ["X_RemoteStable"],
 }
 
 CFG = '''CONSTANTS
